@@ -2,6 +2,7 @@ package c09
 
 import (
 	"bytes"
+	"io"
 	"context"
 	"fmt"
 	"net"
@@ -263,5 +264,144 @@ func streamedFrames(c *common.Ctx, r *common.Rand) error {
 		c.Violate("C09:stream:position", fmt.Sprintf("%s the replica is at %s; only the first file, to (%d,%016x), continues its chain", what, np.String(), uint64(pp.TXID)+1, img1.Checksum()), rep)
 	}
 	checkStoredChain(c, filepath.Join(rdir, "dbs", "db"), uint64(np.TXID), uint64(np.PostApplyChecksum), "C09:stream", what, rep)
+	return nil
+}
+
+// lagAck: a backup client whose service confirms less than it has accepted (the interface allows the returned
+// high-water mark to trail what was written).
+type lagAck struct {
+	*litefs.FileBackupClient
+	lag ltx.TXID
+}
+
+func (l *lagAck) WriteTx(ctx context.Context, name string, r io.Reader) (ltx.TXID, error) {
+	hwm, err := l.FileBackupClient.WriteTx(ctx, name, r)
+	if err == nil && hwm > l.lag {
+		hwm -= l.lag
+	}
+	return hwm, err
+}
+
+// confirmedOnly: retention with a backup service never removes a file the service has not confirmed, also when
+// the service has accepted more than it confirms.
+func confirmedOnly(c *common.Ctx, r *common.Rand) error {
+	dir, err := os.MkdirTemp(c.OutDir, "c09k-")
+	if err != nil {
+		return err
+	}
+	defer os.RemoveAll(dir)
+	svc := filepath.Join(dir, "svc")
+	const lag = 2
+	n, err := lfs.Open(filepath.Join(dir, "p"), true, func(s *litefs.Store) {
+		bc := litefs.NewFileBackupClient(svc)
+		_ = bc.Open()
+		s.BackupClient = &lagAck{bc, lag}
+		s.BackupDelay = 0
+	})
+	if err != nil {
+		return err
+	}
+	defer n.Close()
+	h := hist.NewOn(c, r.Fork(), hist.Config{PageSize: 512}, n.Store, n.Exits, "db", nil, 0, false)
+	if err := commitN(h, 2); err != nil {
+		return err
+	}
+	if err := n.Store.SyncBackup(context.Background()); err != nil {
+		return fmt.Errorf("first sync: %w", err)
+	}
+	if err := commitN(h, 4); err != nil {
+		return err
+	}
+	if err := n.Store.SyncBackup(context.Background()); err != nil {
+		return fmt.Errorf("second sync: %w", err)
+	}
+	db := n.Store.DB("db")
+	pos := db.Pos()
+	confirmed := uint64(pos.TXID) - lag
+	rep := map[string]any{"kind": "confirmed-only", "position": uint64(pos.TXID), "confirmed": confirmed, "hwm": uint64(db.HWM())}
+	c.Evaluations++
+	c.Distinct("confirmed-only")
+	if uint64(db.HWM()) > confirmed {
+		c.Violate("C09:confirmed-only:hwm", fmt.Sprintf("the backup service confirmed transactions up to %d; the node's high-water mark is %d", confirmed, uint64(db.HWM())), rep)
+	}
+	before, _ := lfs.ListLTX(filepath.Join(n.Dir, "dbs", "db"))
+	if err := db.EnforceRetention(context.Background(), time.Now().Add(time.Hour)); err != nil {
+		c.Violate("C09:confirmed-only:error", "retention sweep failed: "+err.Error(), rep)
+	}
+	after, _ := lfs.ListLTX(filepath.Join(n.Dir, "dbs", "db"))
+	left := map[uint64]bool{}
+	for _, f := range after {
+		left[f.Max] = true
+	}
+	for _, f := range before {
+		if !left[f.Max] && f.Max >= confirmed {
+			c.Violate("C09:confirmed-only:removed", fmt.Sprintf("the sweep removed %s although the backup service has only confirmed transactions before %d", f.Name, confirmed), rep)
+			break
+		}
+	}
+	checkStoredChain(c, filepath.Join(n.Dir, "dbs", "db"), uint64(pos.TXID), uint64(pos.PostApplyChecksum), "C09:confirmed-only", "after the sweep", rep)
+	return nil
+}
+
+// damagedForward: a forwarded transaction (POST /tx from the halt-lock holder) whose header continues the chain and
+// whose body is damaged is not kept: every file in the log passes its own integrity check.
+func damagedForward(c *common.Ctx, r *common.Rand) error {
+	dir, err := os.MkdirTemp(c.OutDir, "c09d-")
+	if err != nil {
+		return err
+	}
+	defer os.RemoveAll(dir)
+	clu := cluster.New(dir, 2*time.Second)
+	defer clu.Close()
+	p, err := clu.Start("p", true)
+	if err != nil {
+		return err
+	}
+	if clu.WaitPrimary(5*time.Second) == nil {
+		return fmt.Errorf("no primary")
+	}
+	ps := 512
+	hp := hist.NewOn(c, r.Fork(), hist.Config{PageSize: ps}, p.Store, p.Exits, "db", nil, 0, false)
+	if err := commitN(hp, 3); err != nil {
+		return err
+	}
+	db := p.Store.DB("db")
+	if _, err := db.AcquireHaltLock(context.Background(), 71); err != nil {
+		return fmt.Errorf("halt lock: %v", err)
+	}
+	defer db.ReleaseHaltLock(context.Background(), 71)
+	pp := db.Pos()
+	img := hp.Ref.Clone()
+	tgt := uint32(len(img.Pages))
+	pg := lfs.MakePage(ps, tgt, 929292, tgt, false)
+	next := img.Clone()
+	next.Pages[tgt-1] = pg
+	for _, where := range []string{"page data", "trailer"} {
+		body := buildLTX(uint32(ps), tgt, uint64(pp.TXID)+1, uint64(pp.TXID)+1, uint64(pp.PostApplyChecksum), next.Checksum(), map[uint32][]byte{tgt: pg})
+		if where == "page data" {
+			body[ltx.HeaderSize+30] ^= 0x10
+		} else {
+			body[len(body)-3] ^= 0x10
+		}
+		req, _ := http.NewRequest("POST", p.Server.URL()+"/tx?name=db&lockID=71", bytes.NewReader(body))
+		req.Header.Set("Litefs-Id", "0000000000000044")
+		resp, err := http.DefaultClient.Do(req)
+		code := 0
+		if err == nil {
+			code = resp.StatusCode
+			_, _ = io.Copy(io.Discard, resp.Body)
+			resp.Body.Close()
+		}
+		np := db.Pos()
+		rep := map[string]any{"kind": "damaged-forward", "where": where, "status": code}
+		c.Distinct("damaged-forward:" + where)
+		if !checkStoredChain(c, filepath.Join(p.Dir, "dbs", "db"), uint64(np.TXID), uint64(np.PostApplyChecksum), "C09:damaged-forward", fmt.Sprintf("after a forwarded transaction with damaged %s was posted (status %d)", where, code), rep) {
+			return nil
+		}
+		if ex := p.Exits(); len(ex) > 0 {
+			c.Violate("C09:damaged-forward:exit", fmt.Sprintf("the primary called Exit(%v)", ex), rep)
+			return nil
+		}
+	}
 	return nil
 }
